@@ -190,7 +190,9 @@ def unit_checks():
             assert same_entries(drain(state.next_bitmapped_descriptor), bitmapped)
             assert drain(state.next_bitmapped_descriptor) == []
             # ... and recalling starts all over, returning the saved bitmap
-            state.bitmap = saved = [9, 9]
+            # (rebased: since "fix: 237000 recalls the bitmap defined for reuse" the bitmapped
+            # descriptors are rebuilt from the saved bitmap, so the saved one is the bitmap itself)
+            state.bitmap = saved = bitmap
             assert state.recall_bitmap() is saved
             assert same_entries(drain(state.next_bitmapped_descriptor), bitmapped)
             # links are made to the index of the referred descriptor
@@ -252,11 +254,12 @@ def unit_checks():
     # errors that are not PyBufrKitError
     state = CoderState(False, 1)
     try:
-        state.recall_bitmap()  # nothing defined yet
-    except TypeError:
+        state.recall_bitmap()  # nothing defined yet (rebased: refused with PyBufrKitError since the fix)
+    except PyBufrKitError as e:
+        assert e.message == 'No bitmap is defined for reuse'
         assert state.next_bitmapped_descriptor is None
     else:
-        raise AssertionError('TypeError expected')
+        raise AssertionError('PyBufrKitError expected')
     state.decoded_descriptors.extend(descriptors[:4])
     state.mark_back_reference_boundary()
     try:
